@@ -566,6 +566,33 @@ def mem_pair_corpus():
     return out
 
 
+def ordering_corpus(seed, n):
+    """accesses of one region in a row, loads of loaded words included: an access then has several ordering predecessors that
+    share predecessors of their own (the position-bound computation visits them in some order)"""
+    rng = random.Random(seed)
+    out = ["SLOAD SLOAD PUSH1 0x00 MSTORE PUSH1 0x02 SLOAD POP PUSH1 0x80 ISZERO POP PUSH1 0x40 PUSH1 0x80 SLOAD ISZERO SSTORE PUSH1 0x60",
+           "SLOAD SLOAD PUSH1 0x80 SLOAD ISZERO PUSH1 0x40 SSTORE", "MLOAD MLOAD PUSH1 0x80 MLOAD ISZERO PUSH1 0x40 MSTORE",
+           "SLOAD SLOAD DUP1 SLOAD SWAP1 PUSH1 0x40 SSTORE PUSH1 0x40 SLOAD ADD"]
+    for _ in range(n):
+        ld, st = rng.choice([("SLOAD", "SSTORE"), ("MLOAD", "MSTORE"), ("MLOAD", "MSTORE8")])
+        b = []
+        for _ in range(rng.randrange(3, 7)):
+            r = rng.random()
+            k = rng.choice(["0x00", "0x02", "0x40", "0x80"])
+            if r < 0.3:
+                b.append(ld)                                   # load of the word on top (a loaded one, often)
+            elif r < 0.55:
+                b += ["PUSH1 " + k, ld]
+            elif r < 0.8:
+                b += ["PUSH1 " + k, st]
+            elif r < 0.9:
+                b += [rng.choice(["ISZERO", "DUP1", "SWAP1", "ADD"])]
+            else:
+                b += ["PUSH1 " + k, rng.choice(["SLOAD", "MLOAD"])]
+        out.append(" ".join(b))
+    return out
+
+
 def blocks(seed, n, profiles=("mixed", "mixed", "mem", "arith", "stack"), **kw):
     rng = random.Random(seed)
     res = []
